@@ -147,6 +147,21 @@ func (u *Unit) builtinModel(st *State, call *ast.CallExpr, fn *types.Func, key s
 			st.assume(tImp(t, tLe(tApp("slen", args[1].S), tApp("slen", args[0].S))))
 			return boolVal(t), true
 		}
+	case "encoding/json":
+		switch key {
+		case "encoding/json.Unmarshal":
+			// the decoder may set every field of the struct the second argument points to
+			if len(args) == 2 && len(call.Args) == 2 {
+				if T := u.typeOf(call.Args[1]); T != nil {
+					if p, ok := T.Underlying().(*types.Pointer); ok && isStructVal(p.Elem()) {
+						u.havocStruct(st, p.Elem(), u.ifaceTarget(args[1]))
+					} else {
+						u.note("abstracted", "json.Unmarshal into "+T.String()+" (target not havoc'd)")
+					}
+				}
+			}
+			return u.havocResults(st, sig, "unmarshal"), true
+		}
 	case "encoding/binary":
 		// the big/little endian accessors are given by contracts in specs/std.gocv
 	}
@@ -449,5 +464,34 @@ func (u *Unit) checkGuarded(st *State, owner types.Type, f *types.Var, ref Term,
 			}
 			u.oblige(st, "guarded", fmt.Sprintf("%s.%s:%s@%s", l.Type, g, kind, u.seqLabel("guarded", at.Pos())), okT, at.Pos())
 		}
+	}
+}
+
+
+// ifaceTarget: the reference held by an interface value that was built from a pointer.
+func (u *Unit) ifaceTarget(v Val) Term { return v.S }
+
+// havocStruct gives every modelled field of the struct at ref a fresh value (nested struct values recursively).
+func (u *Unit) havocStruct(st *State, T types.Type, ref Term) {
+	s := structOf(T)
+	if s == nil || isOpaqueStruct(T) {
+		return
+	}
+	for i := 0; i < s.NumFields(); i++ {
+		f := s.Field(i)
+		if isOpaqueStruct(f.Type()) {
+			continue
+		}
+		if isStructVal(f.Type()) {
+			u.havocStruct(st, f.Type(), u.fieldRead(st, T, f, ref).S)
+			continue
+		}
+		if isArrayT(f.Type()) {
+			continue
+		}
+		nv := u.freshVal("json."+f.Name(), f.Type())
+		st.assume(u.typeAssume(nv))
+		u.assumeRefBelowFrontier(st, nv)
+		u.storeAt(st, fieldHeap(T, f.Name()), f.Type(), ref, nv)
 	}
 }
